@@ -661,6 +661,42 @@ ENC_UF = UF('aes_cbc_enc')
 DEC_UF = UF('aes_cbc_dec')
 
 
+class _SizeSet:
+    """the key_sizes frozenset of a cryptography algorithm class with a membership test that takes symbolic ints (hashing is a C boundary)"""
+
+    def __init__(self, real):
+        self._real = real
+
+    def __contains__(self, x):
+        if isinstance(x, SymInt):
+            return bool(sym_or(*[x == v for v in sorted(self._real)]))
+        return x in self._real
+
+    def __len__(self):
+        return len(self._real)
+
+    def __iter__(self):
+        return iter(self._real)
+
+    def __getitem__(self, i):
+        return self._real[i]        # a frozenset is not subscriptable: same TypeError as the real object
+
+    def __repr__(self):
+        return repr(self._real)
+
+
+class _AlgProxy:
+    def __init__(self, real):
+        self._real = real
+        self.key_sizes = _SizeSet(real.key_sizes)
+
+    def __getattr__(self, name):
+        return getattr(self._real, name)
+
+    def __call__(self, *a, **k):
+        return self._real(*a, **k)
+
+
 def install_cipher_model(crypto_mod):
     """Cipher.encrypt/decrypt -> real AES-CBC on concrete arguments, otherwise an uninterpreted
     length-preserving pair with dec(k, iv, enc(k, iv, p)) = p; ValueError when len % 16 != 0."""
@@ -782,7 +818,7 @@ def install(mods):
         c.bytes = sym_bytes
         c.Prf._digestmod_dict = SymDict(c.Prf._digestmod_dict)
         c.Integrity._digestmod_dict = SymDict(c.Integrity._digestmod_dict)
-        c.Cipher._algorithm_dict = SymDict(c.Cipher._algorithm_dict)
+        c.Cipher._algorithm_dict = SymDict({k: (v if isinstance(v, _AlgProxy) else _AlgProxy(v)) for k, v in dict.items(c.Cipher._algorithm_dict)})
         install_cipher_model(c)
     i = mods.get('ikesa')
     if i is not None:
